@@ -62,21 +62,40 @@ Section Generic.
   (* ---------------------------------------------------------------- *)
   (* blend decisions are sound (repaired tests)                        *)
 
-  Lemma lossless_ok_sound p t : lossless_px_ok true p t = true -> pi (blend_spec t p) = pi t.
+  (* clearKeptPixels on one pixel: [b] canvas underneath, [t] target *)
+  Definition kept (b t : px) : px :=
+    if negb (pa t =? 255) && negb (pa t =? 0) && (pa t =? pa b) then px0 else t.
+
+  Lemma lossless_ok_sound b t : lossless_px_ok b t = true -> pi (blend_spec (kept b t) b) = pi t.
   Proof.
-    unfold lossless_px_ok. intros Hok. apply orb_true_iff in Hok as [Ha|Hb].
-    - rewrite blend_src_opaque by lia. reflexivity.
-    - apply andb_true_iff in Hb as [He Hz]. apply px_eqb_eq in He. subst p.
-      cbn [negb orb] in Hz. rewrite blend_src_transparent by lia. reflexivity.
+    unfold lossless_px_ok, kept. intros Hok.
+    destruct (Z.eqb_spec (pa t) 255) as [Ha|Ha].
+    { cbn [negb andb]. rewrite blend_src_opaque by exact Ha. reflexivity. }
+    cbn [orb] in Hok. apply px_eqb_eq in Hok. subst b. cbn [negb andb].
+    destruct (Z.eqb_spec (pa t) 0) as [Hz|Hz]; cbn [negb andb].
+    - rewrite blend_src_transparent by exact Hz. reflexivity.
+    - rewrite Z.eqb_refl. rewrite blend_src_transparent by reflexivity. reflexivity.
   Qed.
 
-  Lemma lossy_ok_sound md p t : lossy_px_ok true md p t = true -> pi (blend_spec t p) = pi t.
+  Variable op : eopts.
+  (* in lossy mode kept pixels are only similar; the projection must not see the
+     difference (true of the alpha projection; vacuous for lossless sessions) *)
+  Hypothesis pi_similar : eo_lossless op = false ->
+    forall md p t, pixels_similar p t md = true -> pi p = pi t.
+
+  Lemma lossy_ok_sound md b t : eo_lossless op = false ->
+    lossy_px_ok md b t = true -> pi (blend_spec (kept b t) b) = pi t.
   Proof.
-    unfold lossy_px_ok. intros Hok. apply orb_true_iff in Hok as [Ha|Hb].
-    - rewrite blend_src_opaque by lia. reflexivity.
-    - apply andb_true_iff in Hb as [He Hz]. cbn [negb orb] in Hz.
-      unfold pixels_similar in He. rewrite blend_src_transparent by lia.
-      apply pi_zero; lia.
+    unfold lossy_px_ok, kept. intros Hll Hok.
+    destruct (Z.eqb_spec (pa t) 255) as [Ha|Ha].
+    { cbn [negb andb]. rewrite blend_src_opaque by exact Ha. reflexivity. }
+    cbn [orb] in Hok. pose proof (pi_similar Hll md b t Hok) as Hpi.
+    assert (Hal : pa b = pa t) by (unfold pixels_similar in Hok; lia).
+    cbn [negb andb].
+    destruct (Z.eqb_spec (pa t) 0) as [Hz|Hz]; cbn [negb andb].
+    - rewrite blend_src_transparent by exact Hz. exact Hpi.
+    - destruct (Z.eqb_spec (pa t) (pa b)); [|lia].
+      rewrite blend_src_transparent by reflexivity. exact Hpi.
   Qed.
 
   (* ---------------------------------------------------------------- *)
@@ -93,20 +112,21 @@ Section Generic.
     rewrite Hw. apply Forall2_nth_pi. exact HF.
   Qed.
 
-  (* [r] carries the pixels of [curr] inside its rectangle *)
-  Definition carries (r : mrec) (curr : canvas) : Prop :=
-    forall x y, in_rect (rec_rect r) x y = true ->
-      nth (Z.to_nat ((y - m_y r) * iw (m_img r) + (x - m_x r))) (ipix (m_img r)) px0 = cget W curr x y.
+  (* the stored picture of [r], in canvas coordinates *)
+  Definition content (r : mrec) (x y : Z) : px :=
+    nth (Z.to_nat ((y - m_y r) * iw (m_img r) + (x - m_x r))) (ipix (m_img r)) px0.
 
   Lemma composite_sound via r c1 base curr :
-    rec_ok r -> carries r curr -> psim pi W H c1 base ->
+    rec_ok r -> psim pi W H c1 base ->
     (forall x y, 0 <= x < W -> 0 <= y < H -> in_rect (rec_rect r) x y = false ->
                  cget W base x y = cget W curr x y) ->
+    (m_blend_none r = true -> forall x y, 0 <= x < W -> 0 <= y < H -> in_rect (rec_rect r) x y = true ->
+                 pi (content r x y) = pi (cget W curr x y)) ->
     (m_blend_none r = false -> forall x y, 0 <= x < W -> 0 <= y < H -> in_rect (rec_rect r) x y = true ->
-                 pi (blend_spec (cget W curr x y) (cget W base x y)) = pi (cget W curr x y)) ->
+                 pi (blend_spec (content r x y) (cget W base x y)) = pi (cget W curr x y)) ->
     psim pi W H (composite W H c1 (frame_of via r)) curr.
   Proof.
-    intros Hok Hcar Hsim Hout Hbl x y Hx Hy.
+    intros Hok Hsim Hout Hnb Hbl x y Hx Hy.
     unfold composite. rewrite cget_tab by lia.
     rewrite (true_rect_frame_of via r Hok).
     destruct (in_rect (rec_rect r) x y) eqn:Hin.
@@ -116,11 +136,12 @@ Section Generic.
       assert (Efy : Canvas.fy (frame_of via r) = m_y r)
         by (unfold frame_of, AnimEncModel.frame_of; cbn [Canvas.fy]; lia).
       rewrite Efx, Efy.
-      pose proof (fget_frame_of via r x y Hok Hin) as Hf. rewrite (Hcar x y Hin) in Hf.
+      pose proof (fget_frame_of via r x y Hok Hin) as Hf. fold (content r x y) in Hf.
       replace (fblend_none (frame_of via r)) with (m_blend_none r) by reflexivity.
-      destruct (m_blend_none r) eqn:Hbn; [exact Hf|].
-      rewrite <- (Hbl eq_refl x y Hx Hy Hin).
-      apply pi_blend; [exact Hf|]. apply Hsim; assumption.
+      destruct (m_blend_none r) eqn:Hbn.
+      + rewrite Hf. apply Hnb; auto.
+      + rewrite <- (Hbl eq_refl x y Hx Hy Hin).
+        apply pi_blend; [exact Hf|]. apply Hsim; assumption.
     - rewrite (Hsim x y Hx Hy). f_equal. apply Hout; assumption.
   Qed.
 
@@ -192,16 +213,49 @@ Section Generic.
       rewrite cget_tab by lia. f_equal; lia.
   Qed.
 
-  Variable op : eopts.
+  Lemma clear_kept_good base curr r : good_rect W H r -> wf_canvas W H curr ->
+    let im := clear_kept W (extract_sub W curr r) base r in
+    iw im = rx1 r - rx0 r /\ ih im = ry1 r - ry0 r /\ wf_img im /\
+    (forall x y, in_rect r x y = true ->
+       nth (Z.to_nat ((y - ry0 r) * iw im + (x - rx0 r))) (ipix im) px0
+       = kept (cget W base x y) (cget W curr x y)).
+  Proof.
+    intros Hg Hc. destruct (extract_sub_good curr r Hg Hc) as (Ew & Eh & Hwf & Hcar).
+    pose proof Hg as (Hx0 & Hx1 & Hy0 & Hy1). cbn zeta.
+    set (sub := extract_sub W curr r) in *.
+    unfold clear_kept; cbn [iw ih ipix]. rewrite Ew, Eh.
+    set (w := rx1 r - rx0 r). set (h := ry1 r - ry0 r).
+    split; [reflexivity|]. split; [reflexivity|]. split.
+    - unfold wf_img; cbn [iw ih ipix]. repeat split; try lia.
+      + rewrite tab_length. nia.
+      + apply Forall_forall. intros p Hp. unfold tab in Hp. apply in_map_iff in Hp as (i & <- & Hi).
+        destruct Hwf as (_ & _ & _ & HF).
+        match goal with |- wf_px (if ?c then _ else _) => destruct c end;
+          [apply wf_px0|apply iget_wf; exact HF].
+    - intros x y Hin. pose proof Hin as Hin'. unfold in_rect in Hin'.
+      match goal with |- nth ?k (tab w h ?g) px0 = _ =>
+        change (nth k (tab w h g) px0) with (cget w (tab w h g) (x - rx0 r) (y - ry0 r)) end.
+      rewrite cget_tab by lia.
+      assert (Ei : iget sub (x - rx0 r) (y - ry0 r) = cget W curr x y).
+      { unfold iget. apply Hcar. exact Hin. }
+      rewrite Ei.
+      replace (rx0 r + (x - rx0 r)) with x by lia. replace (ry0 r + (y - ry0 r)) with y by lia.
+      unfold kept.
+      destruct (Z.ltb_spec x (rx1 r)); [|lia]. destruct (Z.ltb_spec y (ry1 r)); [|lia].
+      reflexivity.
+  Qed.
 
   Lemma candidate_sound base curr r bn im :
     wf_canvas W H base -> wf_canvas W H curr ->
     candidate fx op W H base curr = (r, bn, im) ->
     good_rect W H r /\ rx0 r mod 2 = 0 /\ ry0 r mod 2 = 0 /\
-    im = extract_sub W curr r /\
+    iw im = rx1 r - rx0 r /\ ih im = ry1 r - ry0 r /\ wf_img im /\
     (forall x y, 0 <= x < W -> 0 <= y < H -> in_rect r x y = false -> cget W base x y = cget W curr x y) /\
+    (bn = true -> forall x y, in_rect r x y = true ->
+        nth (Z.to_nat ((y - ry0 r) * iw im + (x - rx0 r))) (ipix im) px0 = cget W curr x y) /\
     (bn = false -> forall x y, 0 <= x < W -> 0 <= y < H -> in_rect r x y = true ->
-        pi (blend_spec (cget W curr x y) (cget W base x y)) = pi (cget W curr x y)).
+        pi (blend_spec (nth (Z.to_nat ((y - ry0 r) * iw im + (x - rx0 r))) (ipix im) px0) (cget W base x y))
+        = pi (cget W curr x y)).
   Proof.
     intros Hb Hc Hcand. unfold candidate in Hcand.
     set (r0 := find_changed_rect W H base curr) in *.
@@ -212,22 +266,34 @@ Section Generic.
       fold r0 in Hi. unfold rect_empty in He. unfold good_rect. lia. }
     destruct (snap_clip_good W H r1 Hg1) as (Hg2 & Hex & Hey & Hcov).
     set (r2 := intersect (snap_to_even r1) (canvas_bounds W H)) in *.
+    rewrite fx_blend in Hcand. cbn [andb] in Hcand.
+    set (ok := if eo_lossless op
+               then rect_forall r2 (fun x y => lossless_px_ok (cget W base x y) (cget W curr x y))
+               else rect_forall r2 (fun x y => lossy_px_ok (quality_to_max_diff (eo_quality op))
+                                                          (cget W base x y) (cget W curr x y))) in *.
     injection Hcand as <- <- <-.
-    repeat split; try assumption; try apply Hg2.
-    - intros x y Hx Hy Hin.
+    assert (Hout : forall x y, 0 <= x < W -> 0 <= y < H -> in_rect r2 x y = false ->
+                     cget W base x y = cget W curr x y).
+    { intros x y Hx Hy Hin.
       destruct (px_diff W base curr x y) eqn:Hd; [|apply px_diff_false; exact Hd].
       pose proof (changed_rect_covers_diff W H base curr x y ltac:(lia) ltac:(lia) Hx Hy Hd) as Hin0.
       fold r0 in Hin0.
       assert (Hin1 : in_rect r1 x y = true).
       { unfold r1. destruct (rect_empty r0) eqn:He; [|exact Hin0].
         unfold rect_empty in He. unfold in_rect in Hin0. lia. }
-      rewrite (Hcov x y Hin1) in Hin. discriminate.
-    - intros Hbn x y Hx Hy Hin. apply negb_false_iff in Hbn.
-      destruct (eo_lossless op).
-      + rewrite rect_forall_spec in Hbn. specialize (Hbn x y Hin). rewrite fx_blend in Hbn.
-        apply lossless_ok_sound. exact Hbn.
-      + rewrite rect_forall_spec in Hbn. specialize (Hbn x y Hin). rewrite fx_blend in Hbn.
-        eapply lossy_ok_sound. exact Hbn.
+      rewrite (Hcov x y Hin1) in Hin. discriminate. }
+    destruct ok eqn:Hok; cbn [negb].
+    - destruct (clear_kept_good base curr r2 Hg2 Hc) as (Ew & Eh & Hwf & Hcar).
+      split; [exact Hg2|]. split; [exact Hex|]. split; [exact Hey|]. split; [exact Ew|].
+      split; [exact Eh|]. split; [exact Hwf|]. split; [exact Hout|]. split; [discriminate|].
+      intros _ x y Hx Hy Hin. rewrite (Hcar x y Hin). unfold ok in Hok.
+      case_eq (eo_lossless op); intros Hll; rewrite Hll in Hok.
+      + rewrite rect_forall_spec in Hok. apply lossless_ok_sound. apply (Hok x y Hin).
+      + rewrite rect_forall_spec in Hok. eapply lossy_ok_sound; [exact Hll|]. apply (Hok x y Hin).
+    - destruct (extract_sub_good curr r2 Hg2 Hc) as (Ew & Eh & Hwf & Hcar).
+      split; [exact Hg2|]. split; [exact Hex|]. split; [exact Hey|]. split; [exact Ew|].
+      split; [exact Eh|]. split; [exact Hwf|]. split; [exact Hout|].
+      split; [|discriminate]. intros _ x y Hin. apply Hcar. exact Hin.
   Qed.
 
   (* ---------------------------------------------------------------- *)
@@ -266,7 +332,8 @@ Section Generic.
     i_dec : psim pi W H (cdec init last) (pad W H im);
     i_show : push (collapse_rev_by pi (played init)) (map pi (cdec init last), m_dur last)
              = collapse_rev_by pi (inputs_of W H ins);
-    i_fcount : e_fcount st = Z.of_nat (length (init ++ [last]))
+    i_fcount : e_fcount st = Z.of_nat (length (init ++ [last]));
+    i_first : init = [] -> m_x last = 0 /\ m_y last = 0 /\ m_blend_none last = true
   }.
 
   Definition inv (ins : list (img * Z)) (st : est) : Prop :=
@@ -342,16 +409,17 @@ Section Generic.
     - apply wf_canvas_Forall. exact Hc.
   Qed.
 
-  Lemma key_sound curr lossy dur c1 : wf_canvas W H curr -> (lossy = true -> lossy_fine = true) ->
+  Lemma key_sound via curr lossy dur c1 : wf_canvas W H curr -> (lossy = true -> lossy_fine = true) ->
     0 <= dur <= max_duration ->
-    psim pi W H (composite W H c1 (frame_of false (key_rec curr lossy dur))) curr.
+    psim pi W H (composite W H c1 (frame_of via (key_rec curr lossy dur))) curr.
   Proof.
     intros Hc Hl Hd.
-    apply (composite_sound false (key_rec curr lossy dur) c1 c1 curr).
+    apply (composite_sound via (key_rec curr lossy dur) c1 c1 curr).
     - apply key_rec_ok; assumption.
-    - intros x y Hin. unfold key_rec; cbn [m_x m_y m_img iw ipix]. unfold cget. f_equal. lia.
     - apply psim_refl.
     - intros x y Hx Hy Hin. unfold rec_rect, key_rec, in_rect in Hin; cbn in Hin. lia.
+    - intros _ x y _ _ Hin. unfold content, key_rec; cbn [m_x m_y m_img iw ipix]. unfold cget.
+      f_equal. f_equal. f_equal. lia.
     - intros Hbn. discriminate.
   Qed.
 
@@ -409,6 +477,7 @@ Section Generic.
       + apply pad_length.
       + rewrite Hcd. exact Hsim.
     - rewrite Hfc, i_fcount0. rewrite !app_length. cbn [length]. lia.
+    - intros Habs. apply app_eq_nil in Habs as [_ Habs]. discriminate.
   Qed.
 
   (* ---------------------------------------------------------------- *)
@@ -458,6 +527,7 @@ Section Generic.
       cbn [map spec_go combine fold_left push fst snd app].
       unfold k at 2, key_rec; cbn [m_dur]. rewrite clamp_dur_id by exact Hdur.
       f_equal. f_equal. apply (psim_map pi W H); try lia; [apply cdec_length|apply pad_length|exact Hs].
+    - intros _. repeat split.
   Qed.
 
   (* ---------------------------------------------------------------- *)
@@ -466,27 +536,29 @@ Section Generic.
   Definition sub_rec (r : rect) (im : img) (lossy bn : bool) (dur : Z) : mrec :=
     mkmrec (rx0 r) (ry0 r) im lossy bn false (clamp_dur dur).
 
-  Lemma in_rect_sub_rec r curr lossy bn dur x y : good_rect W H r ->
-    in_rect (rec_rect (sub_rec r (extract_sub W curr r) lossy bn dur)) x y = in_rect r x y.
+  Lemma in_rect_sub_rec r im lossy bn dur x y :
+    iw im = rx1 r - rx0 r -> ih im = ry1 r - ry0 r ->
+    in_rect (rec_rect (sub_rec r im lossy bn dur)) x y = in_rect r x y.
   Proof.
-    intros (Hx0 & Hx1 & Hy0 & Hy1). unfold rec_rect, sub_rec, extract_sub; cbn [m_x m_y m_img].
-    destruct (Z.leb_spec (rx1 r - rx0 r) 0); [lia|]. destruct (Z.leb_spec (ry1 r - ry0 r) 0); [lia|].
-    cbn [orb iw ih]. unfold in_rect; cbn [rx0 ry0 rx1 ry1]. lia.
+    intros Ew Eh. unfold rec_rect, sub_rec; cbn [m_x m_y m_img]. rewrite Ew, Eh.
+    unfold in_rect; cbn [rx0 ry0 rx1 ry1]. lia.
   Qed.
 
-  Lemma sub_sound c1 base curr r bn lossy dur :
-    wf_canvas W H base -> wf_canvas W H curr ->
+  Lemma sub_sound c1 base curr r bn im lossy dur :
     good_rect W H r -> rx0 r mod 2 = 0 -> ry0 r mod 2 = 0 ->
+    iw im = rx1 r - rx0 r -> ih im = ry1 r - ry0 r -> wf_img im ->
     (lossy = true -> lossy_fine = true) -> 0 <= dur <= max_duration ->
     psim pi W H c1 base ->
     (forall x y, 0 <= x < W -> 0 <= y < H -> in_rect r x y = false -> cget W base x y = cget W curr x y) ->
+    (bn = true -> forall x y, in_rect r x y = true ->
+        nth (Z.to_nat ((y - ry0 r) * iw im + (x - rx0 r))) (ipix im) px0 = cget W curr x y) ->
     (bn = false -> forall x y, 0 <= x < W -> 0 <= y < H -> in_rect r x y = true ->
-        pi (blend_spec (cget W curr x y) (cget W base x y)) = pi (cget W curr x y)) ->
-    let new := sub_rec r (extract_sub W curr r) lossy bn dur in
+        pi (blend_spec (nth (Z.to_nat ((y - ry0 r) * iw im + (x - rx0 r))) (ipix im) px0) (cget W base x y))
+        = pi (cget W curr x y)) ->
+    let new := sub_rec r im lossy bn dur in
     rec_ok new /\ psim pi W H (composite W H c1 (frame_of false new)) curr.
   Proof.
-    intros Hb Hc Hg Hex Hey Hl Hd Hsim Hout Hbl new.
-    destruct (extract_sub_good curr r Hg Hc) as (Ew & Eh & Hwf & Hcar).
+    intros Hg Hex Hey Ew Eh Hwf Hl Hd Hsim Hout Hnb Hbl new.
     pose proof Hg as (Hx0 & Hx1 & Hy0 & Hy1).
     assert (Hok : rec_ok new).
     { unfold rec_ok, new, sub_rec; cbn [m_img m_lossy m_x m_y m_dur].
@@ -494,12 +566,13 @@ Section Generic.
       split; [exact Hwf|]. split; [exact Hl|]. repeat split; try lia; assumption. }
     split; [exact Hok|].
     apply (composite_sound false new c1 base curr Hok).
-    - intros x y Hin. unfold new in Hin. rewrite in_rect_sub_rec in Hin by exact Hg.
-      unfold new, sub_rec; cbn [m_x m_y m_img]. apply Hcar. exact Hin.
     - exact Hsim.
-    - intros x y Hx Hy Hin. unfold new in Hin. rewrite in_rect_sub_rec in Hin by exact Hg. apply Hout; assumption.
-    - intros Hbn x y Hx Hy Hin. unfold new in Hin. rewrite in_rect_sub_rec in Hin by exact Hg.
-      apply Hbl; assumption.
+    - intros x y Hx Hy Hin. unfold new in Hin. rewrite in_rect_sub_rec in Hin by assumption.
+      apply Hout; assumption.
+    - intros Hbn x y Hx Hy Hin. unfold new in Hin. rewrite in_rect_sub_rec in Hin by assumption.
+      unfold content, new, sub_rec; cbn [m_x m_y m_img]. rewrite (Hnb Hbn x y Hin). reflexivity.
+    - intros Hbn x y Hx Hy Hin. unfold new in Hin. rewrite in_rect_sub_rec in Hin by assumption.
+      unfold content, new, sub_rec; cbn [m_x m_y m_img]. apply Hbl; assumption.
   Qed.
 
   Lemma step_sub ins st init last im ins' d im2 dur o st1 :
@@ -520,8 +593,10 @@ Section Generic.
     set (disposed := fill_impl W H prev (e_prect st)).
     assert (Hwd : wf_canvas W H disposed) by (apply wf_fill_impl; exact Hwp).
     destruct (candidate fx op W H disposed curr) as [[rB bnB] imB] eqn:HcB.
-    destruct (candidate_sound prev curr rN bnN imN Hwp Hwc HcN) as (HgN & HexN & HeyN & -> & HoutN & HblN).
-    destruct (candidate_sound disposed curr rB bnB imB Hwd Hwc HcB) as (HgB & HexB & HeyB & -> & HoutB & HblB).
+    destruct (candidate_sound prev curr rN bnN imN Hwp Hwc HcN)
+      as (HgN & HexN & HeyN & EwN & EhN & HwfN & HoutN & HnbN & HblN).
+    destruct (candidate_sound disposed curr rB bnB imB Hwd Hwc HcB)
+      as (HgB & HexB & HeyB & EwB & EhB & HwfB & HoutB & HnbB & HblB).
     match goal with |- context [if ?c then encode_keyframe _ _ _ _ else _] => destruct c end.
     { eapply step_keyframe; eassumption. }
     assert (Hsimd : psim pi W H (fill W H (cdec init last) (rec_rect last)) disposed).
@@ -530,31 +605,31 @@ Section Generic.
       apply i_dec0; assumption. }
     destruct (oc_bg o) eqn:Hbg.
     - (* dispose-background candidate *)
-      destruct (sub_sound (fill W H (cdec init last) (rec_rect last)) disposed curr rB bnB
-                  (codec_lossy op (oc_alt_b o)) dur Hwd Hwc HgB HexB HeyB (codec_lossy_fine _) Hdur
-                  Hsimd HoutB HblB) as [Hok Hs].
+      destruct (sub_sound (fill W H (cdec init last) (rec_rect last)) disposed curr rB bnB imB
+                  (codec_lossy op (oc_alt_b o)) dur HgB HexB HeyB EwB EhB HwfB (codec_lossy_fine _) Hdur
+                  Hsimd HoutB HnbB HblB) as [Hok Hs].
       eapply (inv_append ins st init last im ins' d true
-                (sub_rec rB (extract_sub W curr rB) (codec_lossy op (oc_alt_b o)) bnB dur) im2 dur);
+                (sub_rec rB imB (codec_lossy op (oc_alt_b o)) bnB dur) im2 dur);
         try exact Hi; cbn [e_W e_H e_opts e_recs e_pidx e_prect e_prev e_fcount];
         rewrite ?Hfc1; try reflexivity; try assumption.
       + rewrite i_recs0, i_pidx0, mux_set_dispose_bg_last. reflexivity.
       + rewrite i_recs0, i_pidx0, mux_set_dispose_bg_last. unfold mux_add. rewrite last_idx_last.
         rewrite !app_length. reflexivity.
       + unfold sub_rec; cbn [m_dur]. apply clamp_dur_id. exact Hdur.
-      + intros x y Hx Hy. rewrite in_rect_sub_rec by exact HgB. reflexivity.
+      + intros x y Hx Hy. rewrite in_rect_sub_rec by assumption. reflexivity.
     - (* dispose-none candidate *)
-      destruct (sub_sound (cdec init last) prev curr rN bnN
-                  (codec_lossy op (oc_alt_a o)) dur Hwp Hwc HgN HexN HeyN (codec_lossy_fine _) Hdur
-                  i_dec0 HoutN HblN) as [Hok Hs].
+      destruct (sub_sound (cdec init last) prev curr rN bnN imN
+                  (codec_lossy op (oc_alt_a o)) dur HgN HexN HeyN EwN EhN HwfN (codec_lossy_fine _) Hdur
+                  i_dec0 HoutN HnbN HblN) as [Hok Hs].
       eapply (inv_append ins st init last im ins' d false
-                (sub_rec rN (extract_sub W curr rN) (codec_lossy op (oc_alt_a o)) bnN dur) im2 dur);
+                (sub_rec rN imN (codec_lossy op (oc_alt_a o)) bnN dur) im2 dur);
         try exact Hi; cbn [e_W e_H e_opts e_recs e_pidx e_prect e_prev e_fcount];
         rewrite ?Hfc1; try reflexivity; try assumption.
       + rewrite i_recs0, (with_disp_false last i_disp0). reflexivity.
       + rewrite i_recs0, (with_disp_false last i_disp0). unfold mux_add. rewrite last_idx_last.
         rewrite !app_length. reflexivity.
       + unfold sub_rec; cbn [m_dur]. apply clamp_dur_id. exact Hdur.
-      + intros x y Hx Hy. rewrite in_rect_sub_rec by exact HgN. reflexivity.
+      + intros x y Hx Hy. rewrite in_rect_sub_rec by assumption. reflexivity.
   Qed.
 
   (* ---------------------------------------------------------------- *)
@@ -602,7 +677,8 @@ Section Generic.
   Lemma rec_ok_with_dur r d : rec_ok r -> 0 <= d <= max_duration -> rec_ok (with_dur d r).
   Proof.
     intros (H1 & H2 & H3 & H4 & H5 & H6 & H7 & H8 & _) Hd.
-    unfold rec_ok, with_dur; cbn [m_img m_lossy m_x m_y m_dur]. repeat split; try assumption; lia.
+    unfold rec_ok, with_dur; cbn [m_img m_lossy m_x m_y m_dur].
+    split; [exact H1|]. split; [exact H2|]. repeat split; try assumption; lia.
   Qed.
 
   Lemma step_dup ins st init last im ins' d im2 dur o :
@@ -654,12 +730,174 @@ Section Generic.
         assert (Hcf : map pi (cdec (init ++ [last']) fl) = map pi (cdec init last)).
         { apply (psim_map pi W H); try lia; [apply cdec_length|apply cdec_length|exact Hsf]. }
         rewrite Hcf.
-        destruct (push_head (collapse_rev_by pi (played init)) (map pi (cdec init last)) max_duration)
-          as (d1 & t & E).
-        rewrite E, push_same_head, <- E, <- push_add.
+        rewrite push_push_same.
         unfold fl, filler_rec; cbn [m_dur]. rewrite clamp_dur_id by (unfold max_duration in *; lia).
         replace (max_duration + (m_dur last + dur - max_duration)) with (m_dur last + dur) by lia.
         apply show_dup; [exact i_show0|exact Hc].
       + rewrite i_fcount0, !app_length. cbn [length]. lia.
+      + intros Habs. apply app_eq_nil in Habs as [_ Habs]. discriminate.
+  Qed.
+
+  (* ---------------------------------------------------------------- *)
+  (* AddFrame, histories                                               *)
+
+  Lemma inv_calls ins st : inv ins st -> inv ins (set_calls st).
+  Proof.
+    intros (init & last & im & ins' & d & Hi). exists init, last, im, ins', d.
+    destruct Hi. constructor; assumption.
+  Qed.
+
+  Lemma step_add oracle ins st f : inv ins st -> wf_input f -> inv (ins ++ [f]) (add_frame fx oracle st f).
+  Proof.
+    intros (init & last & im & ins' & d & Hi) Hf. destruct f as [im2 dur]. destruct Hf as [Him2 Hdur].
+    cbn [fst snd] in Him2, Hdur. pose proof Hi as Hi'. destruct Hi'.
+    unfold add_frame. apply inv_calls. rewrite i_prev0, i_W0, i_H0.
+    destruct (canvas_eqb (pad W H im) (pad W H im2)) eqn:Heq.
+    - apply canvas_eqb_eq in Heq. eapply step_dup; try eassumption. symmetry. exact Heq.
+    - cbn [e_opts e_since].
+      match goal with |- context [if ?c then _ else _] => destruct c end.
+      + eapply step_keyframe; try eassumption; reflexivity.
+      + eapply step_sub; try eassumption; reflexivity.
+  Qed.
+
+  Lemma run_inv oracle rest : forall ins st, inv ins st -> Forall wf_input rest ->
+    inv (ins ++ rest) (run_frames fx oracle st rest).
+  Proof.
+    induction rest as [|f rest IH]; intros ins st Hi Hwf.
+    - rewrite app_nil_r. exact Hi.
+    - inversion Hwf as [|? ? Hf Hrest]; subst. cbn [run_frames fold_left].
+      replace (ins ++ f :: rest) with ((ins ++ [f]) ++ rest) by (rewrite <- app_assoc; reflexivity).
+      apply IH; [|exact Hrest]. apply step_add; assumption.
+  Qed.
+
+  Lemma run_from_new oracle st0 frames :
+    e_W st0 = W -> e_H st0 = H -> e_opts st0 = op -> e_recs st0 = [] -> e_fcount st0 = 0 ->
+    e_prev st0 = None ->
+    frames <> [] -> Forall wf_input frames ->
+    inv frames (run_frames fx oracle st0 frames).
+  Proof.
+    intros HW0 HH0 Hop0 Hrecs0 Hfc0 Hprev0 Hne Hwf.
+    destruct frames as [|[im2 dur] rest]; [contradiction|].
+    inversion Hwf as [|? ? Hf Hrest]; subst. destruct Hf as [Him2 Hdur]. cbn [fst snd] in Him2, Hdur.
+    cbn [run_frames fold_left]. change ((im2, dur) :: rest) with ([(im2, dur)] ++ rest).
+    apply run_inv; [|exact Hrest].
+    unfold add_frame. apply inv_calls. rewrite Hprev0, HW0, HH0. apply step_first; assumption.
+  Qed.
+
+  (* ---------------------------------------------------------------- *)
+  (* Close                                                             *)
+
+  Lemma blend_over_blank t : pi (blend_spec t px0) = pi t.
+  Proof.
+    unfold blend_spec. destruct (Z.eqb_spec (pa t) 0) as [Hz|Hz].
+    - apply pi_zero; [reflexivity|exact Hz].
+    - cbn [px0 pa]. rewrite Z.eqb_refl, orb_true_r. reflexivity.
+  Qed.
+
+  Lemma still_sound via r prev :
+    rec_ok r -> m_x r = 0 -> m_y r = 0 ->
+    psim pi W H (composite W H (blank W H) (frame_of via (with_disp false r))) prev ->
+    psim pi W H (composite W H (blank W H)
+                   (frame_of via (mkmrec 0 0 (m_img r) (m_lossy r) false false 0))) prev.
+  Proof.
+    intros Hok Hx0 Hy0 Hs x y Hx Hy. specialize (Hs x y Hx Hy). rewrite <- Hs. clear Hs.
+    unfold composite. rewrite !cget_tab by lia.
+    assert (Hok' : rec_ok (mkmrec 0 0 (m_img r) (m_lossy r) false false 0)).
+    { destruct Hok as (H1 & H2 & H3 & H4 & H5 & H6 & H7 & H8 & H9).
+      unfold rec_ok; cbn [m_img m_lossy m_x m_y m_dur]. rewrite Hx0 in H7. rewrite Hy0 in H8.
+      split; [exact H1|]. split; [exact H2|]. unfold max_duration. repeat split; try lia. }
+    rewrite (true_rect_frame_of via _ Hok'), (true_rect_frame_of via _ (rec_ok_with_disp false r Hok)).
+    unfold rec_rect; cbn [m_x m_y m_img with_disp]. rewrite Hx0, Hy0.
+    destruct (in_rect _ x y); [|reflexivity].
+    unfold frame_of, AnimEncModel.frame_of, decoded; cbn [fblend_none Canvas.fx fy m_blend_none m_x m_y m_img m_lossy with_disp].
+    rewrite Hx0, Hy0.
+    destruct (m_blend_none r).
+    - unfold blank. rewrite cget_tab by lia. apply blend_over_blank.
+    - reflexivity.
+  Qed.
+
+  Lemma single_show via k out prevc last frames :
+    out_W out = W -> out_H out = H -> out_recs out = [k] -> out_via_encode out = via ->
+    length prevc = Z.to_nat (W * H) ->
+    psim pi W H (composite W H (blank W H) (frame_of via k)) prevc ->
+    psim pi W H (cdec [] last) prevc ->
+    push [] (map pi (cdec [] last), m_dur last) = collapse_rev_by pi (inputs_of W H frames) ->
+    forall loop, same_show_by pi W H loop out (playback rt_ll rt_ly fx out) (inputs_of W H frames).
+  Proof.
+    intros HoW HoH Hrecs Hvia Hlen Hs Hd Hshow loop.
+    assert (Hpb : playback rt_ll rt_ly fx out
+                  = [(composite W H (blank W H) (frame_of via k), m_dur k)]).
+    { unfold playback, play_recs. rewrite Hrecs, Hvia, HoW, HoH. reflexivity. }
+    assert (Hc : map pi (composite W H (blank W H) (frame_of via k)) = map pi (cdec [] last)).
+    { transitivity (map pi prevc).
+      - apply (psim_map pi W H); [lia|lia|apply tab_length|exact Hlen|exact Hs].
+      - symmetry. apply (psim_map pi W H); [lia|lia|apply cdec_length|exact Hlen|exact Hd]. }
+    assert (HI : collapse_by pi (inputs_of W H frames) = [(map pi (cdec [] last), m_dur last)]).
+    { unfold collapse_by. rewrite <- Hshow. reflexivity. }
+    constructor.
+    - split; assumption.
+    - rewrite HI, Hpb. unfold collapse_by, collapse_rev_by, proj_show.
+      cbn [map fold_left push rev app fst snd]. rewrite Hc. reflexivity.
+    - rewrite HI. cbn [length]. lia.
+  Qed.
+
+  Theorem generic_roundtrip oracle simple st0 frames out :
+    e_W st0 = W -> e_H st0 = H -> e_opts st0 = op -> e_recs st0 = [] -> e_fcount st0 = 0 ->
+    e_prev st0 = None ->
+    frames <> [] -> Forall wf_input frames ->
+    close simple (run_frames fx oracle st0 frames) = Some out ->
+    same_show_by pi W H (eo_loop op) out (playback rt_ll rt_ly fx out) (inputs_of W H frames).
+  Proof.
+    intros HW0 HH0 Hop0 Hrecs0 Hfc0 Hprev0 Hne Hwf Hclose.
+    destruct (run_from_new oracle st0 frames HW0 HH0 Hop0 Hrecs0 Hfc0 Hprev0 Hne Hwf)
+      as (init & last & im & ins' & d & Hi).
+    set (st := run_frames fx oracle st0 frames) in *.
+    destruct Hi.
+    pose proof (proj1 (Forall_snoc _ _ _) i_ok0) as [Hokinit Hoklast].
+    assert (Hlp : length (pad W H im) = Z.to_nat (W * H)) by apply pad_length.
+    unfold close in Hclose. rewrite i_prev0, i_W0, i_H0, i_op0, i_fcount0 in Hclose.
+    assert (Hr0 : exists r0 tl, e_recs st = r0 :: tl /\ (init = [] -> r0 = last)).
+    { rewrite i_recs0. destruct init as [|a init']; cbn [app].
+      - exists last, []. split; [reflexivity|auto].
+      - exists a, (init' ++ [last]). split; [reflexivity|]. intros Habs; discriminate. }
+    destruct Hr0 as (r0 & tl & Hr0 & Hr0l). rewrite Hr0 in Hclose.
+    destruct ((Z.of_nat (length (init ++ [last])) =? 1) && simple) eqn:Hstill.
+    - (* the single-frame still written by SimpleEncodeFunc *)
+      apply andb_true_iff in Hstill as [Hone _].
+      assert (Hinit : init = []).
+      { destruct init as [|a init']; [reflexivity|]. rewrite app_length in Hone. cbn [length] in Hone. lia. }
+      subst init. injection Hclose as <-.
+      set (lossy := negb (eo_lossless op)).
+      assert (Hl : lossy = true -> lossy_fine = true).
+      { unfold lossy. destruct lossy_fine; [reflexivity|]. destruct (Hop eq_refl) as [-> _]. discriminate. }
+      eapply (single_show true (mkmrec 0 0 (mkimg W H (pad W H im)) lossy false false 0) _ (pad W H im) last);
+        try reflexivity; try assumption.
+      apply (still_sound true (key_rec (pad W H im) lossy 0) (pad W H im)); try reflexivity.
+      + apply key_rec_ok; [apply wf_pad; exact i_im0|exact Hl|unfold max_duration; lia].
+      + apply key_sound; [apply wf_pad; exact i_im0|exact Hl|unfold max_duration; lia].
+    - rewrite <- Hr0 in Hclose.
+      destruct (mux_animated (e_recs st)) eqn:Han.
+      + (* an animation *)
+        injection Hclose as <-.
+        assert (Hpb : playback rt_ll rt_ly fx (mkout false false W H (eo_loop op) (e_recs st))
+                      = played (e_recs st)) by reflexivity.
+        assert (Hcol : collapse_by pi (played (e_recs st)) = collapse_by pi (inputs_of W H frames)).
+        { unfold collapse_by. f_equal. rewrite i_recs0, played_snoc, collapse_rev_by_snoc. exact i_show0. }
+        constructor; cbn [out_W out_H out_loop out_still].
+        * split; reflexivity.
+        * rewrite Hpb, Hcol. reflexivity.
+        * intros _. rewrite Hpb. repeat split. exact Hcol.
+      + (* one frame of duration 0: the muxer writes a simple file *)
+        injection Hclose as <-.
+        assert (Hinit : init = []).
+        { destruct init as [|a init']; [reflexivity|]. exfalso.
+          unfold mux_animated in Han. rewrite i_recs0 in Han. rewrite app_length in Han.
+          cbn [length] in Han. apply orb_false_iff in Han as [Han _]. lia. }
+        subst init. specialize (Hr0l eq_refl). subst r0.
+        destruct (i_first0 eq_refl) as (Hx0 & Hy0 & _).
+        eapply (single_show false (mkmrec 0 0 (m_img last) (m_lossy last) false false 0) _ (pad W H im) last);
+          try reflexivity; try assumption.
+        apply (still_sound false last (pad W H im) Hoklast Hx0 Hy0).
+        rewrite (with_disp_false last i_disp0). exact i_dec0.
   Qed.
 End Generic.
